@@ -246,6 +246,20 @@ def run(ctx):
             parts = [(fn[:-5], text) for fn, text in files]
             for pi, perm in enumerate(itertools.permutations(range(k))):
                 pjobs.append((1000 + i, pi, perm, parts, [["-fcompound-names"], [], ["-fcompound-names", "-no-gen-OER"]][i % 3]))
+        # parameterized types instantiated in a file that is not the first (their generated names embed the source line of the
+        # template within its own file), and -fline-refs (line numbers in comments): all orders
+        npar = 3 if ctx.quick else 12
+        for i in range(npar):
+            pad = "\n" * ctx.rng.randrange(0, 9) + "-- filler\n" * ctx.rng.randrange(0, 4)
+            pa = (f"PA{i}", f"PA{i} DEFINITIONS AUTOMATIC TAGS ::= BEGIN\n" + "  -- c\n" * ctx.rng.randrange(0, 6) +
+                  f"  Plain{i} ::= SEQUENCE {{ a INTEGER, b BOOLEAN OPTIONAL }}\n  Lst{i} ::= SEQUENCE OF Plain{i}\nEND\n")
+            pb = (f"PB{i}", pad + f"PB{i} DEFINITIONS AUTOMATIC TAGS ::= BEGIN\n  Pair{i} {{T}} ::= SEQUENCE {{ first T, second T }}\n"
+                  f"  Named{i} ::= SEQUENCE {{ p Pair{i} {{INTEGER}}, q Pair{i} {{BOOLEAN}} }}\nEND\n")
+            pc = (f"PC{i}", f"PC{i} DEFINITIONS IMPLICIT TAGS ::= BEGIN\n  Box{i} {{T, INTEGER:n}} ::= SEQUENCE (SIZE(1..n)) OF T\n"
+                  f"  Boxes{i} ::= CHOICE {{ a [0] Box{i} {{IA5String, 4}}, b [1] Box{i} {{BOOLEAN, 2}} }}\nEND\n")
+            parts = [pa, pb, pc][: 2 + i % 2]
+            for pi, perm in enumerate(itertools.permutations(range(len(parts)))):
+                pjobs.append((2000 + i, pi, perm, parts, [["-fcompound-names"], ["-fline-refs"], ["-fcompound-names", "-fline-refs"]][i % 3]))
         def perm_job(a):
             i, pi, perm, parts, opts = a
             d = os.path.join(root, f"perm{i}-{pi}"); os.makedirs(d)
